@@ -464,7 +464,7 @@ func (e *Engine) Run() *RunResult {
 		e.resetPath()
 		end := e.runPath(fn, pkg)
 		if end.reason == "ok" && e.cfg.Replay == nil && len(e.res.Witnesses) < e.cfg.Witnesses && e.threads == nil && !e.usedRand {
-			if w := e.model(nil); len(w) > 0 {
+			if w := e.model(nil); w != nil {
 				var picks []int
 				for _, d := range e.trace[:min(e.tpos, len(e.trace))] {
 					if d.kind == dPick {
